@@ -21,7 +21,7 @@ import (
 func init() {
 	core.Register(&core.Simple{
 		Id: "C11", Lvl: "exploration", Quick: 220, Thorough: 6000, PerBatch: 55, Width: 55, Timeout: 2400,
-		RuleText: "each case is a history of 20-40 file-management requests through the real connection loop on a generated tree (names over ASCII and Mac-Roman high bytes incl. names that merely contain '.incomplete', spaces, 1..60 bytes; not starting with '.' or '@'): rename, move, delete, new folder (also onto an existing name), alias, set-comment on files and folders, upload started and cut (partial file), and move/rename attempts on a partial by its listed name; destination names never collide. After every step a reference namespace model is compared with: the file list of every folder (exactly the model's entries, partials under their final name, folder item counts, sizes), get-info and the download reply of every complete file (size and type agree with the list and with the bytes on disk; comment), and the directory contents (side files .info_/.rsrc_/.incomplete travel or vanish with their file, no orphans). distinct = multiset of operation kinds; non-trivial = history has a rename/move/delete of a file that owns a side file or a partial",
+		RuleText: "each case is a history of 20-40 file-management requests through the real connection loop on a generated tree (names over ASCII and Mac-Roman high bytes incl. names that merely contain '.incomplete', spaces, 1..60 bytes; not starting with '.' or '@'): rename, move, delete, new folder (also onto an existing name), alias, set-comment on files and folders (an eighth of the comments 4-9 KB long), upload started and cut (partial file), and move/rename attempts on a partial by its listed name; destination names never collide. After every step a reference namespace model is compared with: the file list of every folder (exactly the model's entries, partials under their final name, folder item counts, sizes), get-info and the download reply of every complete file (size and type agree with the list and with the bytes on disk; comment), and the directory contents (side files .info_/.rsrc_/.incomplete travel or vanish with their file, no orphans). distinct = multiset of operation kinds; non-trivial = history has a rename/move/delete of a file that owns a side file or a partial",
 		Case:     runCase,
 	})
 }
@@ -354,6 +354,9 @@ func (w *world) doStep() bool {
 		}
 		e := core.Pick(r, cands)
 		cm := r.Printable(1 + r.Intn(80))
+		if r.Chance(1, 8) {
+			cm = r.Printable(4100 + r.Intn(5000)) // a request above 4 KiB whose name and path fields precede the long one
+		}
 		rep, ok := w.cl.Call(207, append(w.fields(e), rc.F(210, cm))...)
 		w.log = append(w.log, fmt.Sprintf("set comment (%d bytes) on %q in %q (dir=%v) -> %v", len(cm), e.name, e.parent.path(), e.dir, rep))
 		if !ok || rep.Err != 0 {
